@@ -1,6 +1,7 @@
 import Driver.Util
 import Driver.C20
 import Driver.C13
+import Driver.C10
 /-!
 Line-protocol driver.  Reads one JSON object per line on stdin, each with a field `p`
 naming the property slice and an `id`; writes one JSON object per line with the same `id`
@@ -12,6 +13,7 @@ def dispatch (j : Json) : Json :=
   match getStr j "p" with
   | "C20" => Driver.C20.handle j
   | "C13" => Driver.C13.handle j
+  | "C10" => Driver.C10.handle j
   | p => Json.mkObj [("bad-op", Json.str p)]
 
 partial def loop (hin hout : IO.FS.Stream) : IO Unit := do
